@@ -90,3 +90,6 @@ def run(ctx):
 
 def replay(ctx, path):
     return cc.replay(ctx, path, PROP)
+
+
+META["level_claimed"]["text"] += (' Added: pending_writes_view (after any history, every intermediate state of a sequence of writes to one path reads the value written last through every handle and spelling) as the backbone of the concurrent family `conc` (one writer, several readers; a read must answer as some state between the mutations completed before it started and those started before it ended - sampled, not proved, for the real goroutines).')
